@@ -368,6 +368,20 @@ func TestMutRequest(t *testing.T) {
 		ctl := drawCtl(t, reqCtl)
 		seed := seedRequest(t, "seed")
 		body, n := mutate(t, seed, func() []byte { return seedRequest(t, "other") }, m)
+		if rapid.IntRange(0, 3).Draw(t, "keyClass") == 0 {
+			// a Sec-WebSocket-Key of exactly 24 characters from one of the classes (or a drawn one)
+			key := rapid.SampledFrom(keyClasses).Draw(t, "key").key
+			if rapid.IntRange(0, 3).Draw(t, "keyDrawn") == 0 {
+				const alphabet = "ABCDEFGHIJKLMNOPQRSTUVWXYZabcdefghijklmnopqrstuvwxyz0123456789+/=-_! "
+				b := make([]byte, 24)
+				for i := range b {
+					b[i] = alphabet[rapid.IntRange(0, len(alphabet)-1).Draw(t, "keyChar")]
+				}
+				key = string(b)
+			}
+			body = setHeaderValue(body, "sec-websocket-key", key)
+			hx.Class("request/key-class")
+		}
 		if rapid.IntRange(0, 3).Draw(t, "align") == 0 {
 			// a line end next to the end of the read buffer, often after a short last token
 			if rapid.Bool().Draw(t, "shortVersion") {
@@ -662,4 +676,32 @@ func utf8EdgeStream(t *rapid.T, label string, masked bool) []byte {
 		}
 	}
 	return ref.EncodeAll(fs)
+}
+
+// setHeaderValue replaces the value of the first header line with that name
+// (ASCII case-insensitive) or, if there is none, inserts the line after the
+// first line.
+func setHeaderValue(head []byte, lowerName, value string) []byte {
+	lines := bytes.SplitAfter(head, []byte("\n"))
+	for i, l := range lines {
+		c := bytes.IndexByte(l, ':')
+		if i == 0 || c < 0 || strings.ToLower(strings.TrimSpace(string(l[:c]))) != lowerName {
+			continue
+		}
+		eol := "\n"
+		if bytes.HasSuffix(l, []byte("\r\n")) {
+			eol = "\r\n"
+		} else if !bytes.HasSuffix(l, []byte("\n")) {
+			eol = ""
+		}
+		lines[i] = []byte(string(l[:c+1]) + " " + value + eol)
+		return bytes.Join(lines, nil)
+	}
+	if len(lines) < 2 {
+		return head
+	}
+	ins := []byte("Sec-WebSocket-Key: " + value + "\r\n")
+	out := append([]byte(nil), lines[0]...)
+	out = append(out, ins...)
+	return append(out, bytes.Join(lines[1:], nil)...)
 }
